@@ -14,6 +14,7 @@ Does NOT decide: port actually free, file actually gone, EOF actually observed, 
 from ..sym import show, walk_expr
 from ..common import short, trait_impls, coroutine_of
 from .. import pathq
+from . import fq
 from . import acc
 
 EXPLANATION = __doc__
@@ -48,7 +49,7 @@ def run(ctx, f, rep):
         rep.check(owns, "R17.1", "R17.1|%s|owns-listener" % b.path, "the listener is owned by the accept task (dropping the task closes it)", b.loc())
         nstop = 0
         for p in pathq.paths(f, b, max_visits=2, inline_async=True):
-            feeds = acc.arm_feeds(p)
+            feeds = acc.arm_feeds(p, f)
             # decisions on which select arm fired, in order
             fired = []
             for (e, c, bb_, _) in p.conds:
@@ -152,7 +153,7 @@ def run(ctx, f, rep):
         rep.check(every and npaths > 0, "R17.3", "R17.3|%s|shutdown-clears-table" % ty, "%s::shutdown clears the peer table (drops every write half) on every path (%d)" % (ty, npaths), b.loc())
         # the read halves live in the receive queue shared with handshake tasks and with the streams' own wakers: a backend that
         # has such a queue must empty it in shutdown(), on every path where the queue exists
-        has_queue = any(a for p_, a in f.adts.items() if p_.endswith("::" + ty.split("::")[-1]) and any("QueueInner" in x["ty"] for x in a["variants"][0]["fields"]))
+        has_queue = any(a for p_, a in f.adts.items() if p_.endswith("::" + ty.split("::")[-1]) and any(fq.inner_name(f) in x["ty"] for x in a["variants"][0]["fields"]))
         if has_queue:
             ok = True
             n = 0
@@ -160,14 +161,14 @@ def run(ctx, f, rep):
                 if p.end != "return":
                     continue
                 n += 1
-                q_none = any(e[0] == "discr" and c == ("eq", 0) and any(isinstance(x, tuple) and x and x[0] == "field" and "QueueInner" in str(x[3]) for x in walk_expr(e[1])) for (e, c, _, _) in p.conds)
-                cq = [ev for i, ev in pathq.calls(p, "clear", "drain", "retain", "take") if "QueueInner" in ev.name or "HashMap" in ev.name and "scc" not in ev.name]
+                q_none = any(e[0] == "discr" and c == ("eq", 0) and any(isinstance(x, tuple) and x and x[0] == "field" and fq.inner_name(f) in str(x[3]) for x in walk_expr(e[1])) for (e, c, _, _) in p.conds)
+                cq = [ev for i, ev in pathq.calls(p, "clear", "drain", "retain", "take") if fq.inner_name(f) in ev.name or "HashMap" in ev.name and "scc" not in ev.name]
                 if not q_none and not cq:
                     ok = False
             rep.check(ok and n > 0, "R17.3", "R17.3|%s|shutdown-clears-receive-queue" % ty,
                       "%s::shutdown also drops the peers' read halves held in the shared receive queue (otherwise a pending handshake or a parked stream waker keeps every connection open after close/drop)" % ty, b.loc())
     # QueueInner::clear really empties the stream map
-    qc = [b for b in f.bodies if b.path.endswith("::clear") and "QueueInner" in b.path]
+    qc = [b for b in f.bodies if b.path.endswith("::clear") and fq.inner_name(f) in b.path]
     rep.floor("R17.3", "QueueInner::clear", len(qc), 1)
     for b in qc:
         ok = any(fn and fn["name"] == "clear" and "HashMap" in fn["path"] for bb, t, fn in b.calls())
